@@ -266,6 +266,7 @@ pub fn drive<P: Prop>(p: &P, cases: usize, lanes: usize, seed: u64, known: &Know
                 let mut stats = Stats::default();
                 let mut harness_err: Option<String> = None;
                 let failed = std::cell::Cell::new(false);
+                let first_fail: std::cell::RefCell<Option<(P::Case, String)>> = std::cell::RefCell::new(None);
                 let cfg = Config {
                     cases: per_lane as u32,
                     rng_seed: RngSeed::Fixed(seed.wrapping_mul(64).wrapping_add(lane as u64)),
@@ -316,6 +317,9 @@ pub fn drive<P: Prop>(p: &P, cases: usize, lanes: usize, seed: u64, known: &Know
                                     }
                                     Ok(())
                                 } else {
+                                    if !failed.get() {
+                                        *first_fail.borrow_mut() = Some((case.clone(), f.msg.clone()));
+                                    }
                                     failed.set(true);
                                     stop.store(true, SeqCst);
                                     Err(TestCaseError::fail(f.msg))
@@ -331,24 +335,48 @@ pub fn drive<P: Prop>(p: &P, cases: usize, lanes: usize, seed: u64, known: &Know
                         let mut src = Src::new(&stream);
                         let mut case = p.gen(&mut src);
                         let mut msg = reason.to_string();
-                        // structural minimisation
+                        // structural minimisation; a candidate must fail twice in a row to be
+                        // accepted, so that a failure that depends on real thread timing does not
+                        // shrink into an unrelated tiny case
                         let mut budget = 3000usize;
                         let mut scratch = Stats::default();
+                        let fails = |c: &P::Case, scratch: &mut Stats| -> Option<String> {
+                            match guarded_check(p, c, lane, scratch) {
+                                Ok(Err(f)) if known.matches(p.property(), &f).is_none() => Some(f.msg),
+                                _ => None,
+                            }
+                        };
                         'outer: loop {
                             for cand in p.simplify(&case) {
                                 if budget == 0 {
                                     break 'outer;
                                 }
                                 budget -= 1;
-                                if let Ok(Err(f)) = guarded_check(p, &cand, lane, &mut scratch) {
-                                    if known.matches(p.property(), &f).is_none() {
+                                if let Some(m1) = fails(&cand, &mut scratch) {
+                                    if fails(&cand, &mut scratch).is_some() {
                                         case = cand;
-                                        msg = f.msg;
+                                        msg = m1;
                                         continue 'outer;
                                     }
                                 }
                             }
                             break;
+                        }
+                        // the minimal case must still fail when run again (up to 5 tries); otherwise
+                        // the first failing case as generated is what gets reported
+                        let mut reproduced = false;
+                        for _ in 0..5 {
+                            if let Some(m) = fails(&case, &mut scratch) {
+                                msg = m;
+                                reproduced = true;
+                                break;
+                            }
+                        }
+                        if !reproduced {
+                            if let Some((c0, m0)) = first_fail.borrow_mut().take() {
+                                case = c0;
+                                msg = format!("{} (not reproducible after shrinking: this is the case as first generated)", m0);
+                            }
                         }
                         fail_case = Some((case, msg));
                     }
